@@ -1268,6 +1268,11 @@ func castPerTarget(c *Ctx, r *R, cs *bigSwitch) {
 			established := false
 			for _, cd := range ex.St.Conds {
 				s := cd.String()
+				// the declared types may have been resolved ahead of the stores into a table keyed
+				// by target: a lookup in it stands for typeFromToken(target.Tokens[0])
+				if strings.HasPrefix(s, "!") && strings.Contains(s, "slices.Contains(") && strings.Contains(s, "map[*token]Type{}[") && c.typeTableOf(sc.Clause) != "" {
+					established = true
+				}
 				if strings.HasPrefix(s, "!") && (strings.Contains(s, "typeFromToken(") || strings.Contains(s, ".Tokens) > 0")) {
 					established = true
 				}
@@ -1313,4 +1318,82 @@ func (c *Ctx) isCastHelper(name string) bool {
 		}
 	}
 	return casts > 0
+}
+
+// typeTableOf: the compile-case fills a local map[*token]Type by `M[k] = typeFromToken(c,
+// k.Tokens[0])` for every k of a range over the declaration's targets — the store is under
+// no condition other than `len(k.Tokens) > 0` — and stores nothing else into it. A lookup
+// M[target] then is the target's declared type, or the zero Type for a target without one.
+func (c *Ctx) typeTableOf(cl *ast.CaseClause) string {
+	var mobj types.Object
+	good, bad := 0, 0
+	ast.Inspect(cl, func(n ast.Node) bool {
+		as, ok := n.(*ast.AssignStmt)
+		if !ok {
+			return true
+		}
+		for i, l := range as.Lhs {
+			ix, ok := unparen(l).(*ast.IndexExpr)
+			if !ok {
+				continue
+			}
+			mt, ok := c.TypeOf(ix.X).Underlying().(*types.Map)
+			if !ok || !c.isTokenPtr(mt.Key()) {
+				continue
+			}
+			mid, ok := unparen(ix.X).(*ast.Ident)
+			if !ok {
+				bad++
+				continue
+			}
+			if mobj != nil && c.Obj(mid) != mobj {
+				bad++
+				continue
+			}
+			mobj = c.Obj(mid)
+			kid, ok := unparen(ix.Index).(*ast.Ident)
+			if !ok || len(as.Lhs) != len(as.Rhs) {
+				bad++
+				continue
+			}
+			call, ok := unparen(as.Rhs[i]).(*ast.CallExpr)
+			if !ok || c.CalleeName(call) != "typeFromToken" || len(call.Args) != 2 || nosp(c.Src(call.Args[1])) != kid.Name+".Tokens[0]" {
+				bad++
+				continue
+			}
+			// enclosing statements up to the range loop over the targets
+			okPath := false
+			child := ast.Node(as)
+			for p := c.Parent(as); p != nil && p != ast.Node(cl); child, p = p, c.Parent(p) {
+				switch x := p.(type) {
+				case *ast.IfStmt:
+					if x.Body != child || nosp(c.Src(x.Cond)) != "len("+kid.Name+".Tokens)>0" || x.Init != nil {
+						bad++
+					}
+				case *ast.RangeStmt:
+					if v, ok := x.Value.(*ast.Ident); ok && c.Obj(v) == c.Obj(kid) && strings.HasSuffix(nosp(c.Src(x.X)), ".Tokens[0].Tokens") {
+						okPath = true
+					} else {
+						bad++
+					}
+				case *ast.BlockStmt:
+				default:
+					bad++
+				}
+				if okPath {
+					break
+				}
+			}
+			if okPath {
+				good++
+			} else {
+				bad++
+			}
+		}
+		return true
+	})
+	if mobj == nil || good == 0 || bad > 0 {
+		return ""
+	}
+	return mobj.Name()
 }
